@@ -11,7 +11,7 @@ VARIABLES l, len, slots, viol, drift, nchk
 vars == <<l, len, slots, viol, drift, nchk>>
 E == Rec[l]
 Has(r, f) == f \in DOMAIN r
-Note(cond, seq, tag) == IF cond THEN seq ELSE Append(seq, <<l, tag>>)
+Note(cond, seq, tag) == IF cond \/ Len(seq) >= 200 THEN seq ELSE Append(seq, <<l, tag>>)
 Init == l = 1 /\ len = 0 /\ slots = <<>> /\ viol = <<>> /\ drift = <<>> /\ nchk = 0
 
 Reset == /\ E.ev = "reset" /\ len' = 0 /\ slots' = <<>> /\ UNCHANGED <<viol, drift, nchk>>
